@@ -30,6 +30,10 @@ def param_sweep_sets():
         SsbOpParamLanguageString({"english": "a", "german": "b\nc"}),
         SsbOpParamPositionMarker("m0", 0, 0, 1, 2), SsbOpParamPositionMarker("m1", 2, 0, 3, 4),
         SsbOpParamPositionMarker("m2", 0, 2, 5, 6), SsbOpParamPositionMarker("m3", 2, 2, 0, 0),
+        # negative and boundary coordinates (-1 is a tempting sentinel), large values
+        SsbOpParamPositionMarker("m4", 0, 0, -1, 5), SsbOpParamPositionMarker("m5", 2, 0, -1, -1), SsbOpParamPositionMarker("m6", 0, 2, 4, -1),
+        SsbOpParamPositionMarker("m7", 2, 2, -2, 255), -1, -32768, SsbOpParamFixedPoint(-1, "0"), SsbOpParamFixedPoint(127, "996"),
+        SsbOpParamConstString("-1"), SsbOpParamConstant("NONE"),
     ]
     names = ["Foo", "foo_bar", "x1", "message_Talk", "WaitExecuteLives", "flag_Set", "Switch", "CaseText", "debug_Print"]
     n = 0
